@@ -30,8 +30,8 @@ AttSlot(c, seed, e, ver, v) ==
        ELSE IF r = c.p THEN F1(c, e + 1)
        ELSE IF r = c.p + 1 /\ e > 0 THEN L1(c, e - 1)
        ELSE -1
-AttOf(c, seed) == {x \in [e : Epochs(c), ver : Vers, v : c.vals, slot : -1..(MaxSlot + 3 * c.p)] :
-                    x.slot = AttSlot(c, seed, x.e, x.ver, x.v) /\ x.slot >= 0}
+AttOf(c, seed) == {r \in {[e |-> e, ver |-> ver, v |-> v, slot |-> AttSlot(c, seed, e, ver, v)] :
+                                e \in Epochs(c), ver \in Vers, v \in c.vals} : r.slot >= 0}
 
 \* proposer of a slot: one of the validators or somebody else
 PropV(c, seed, e, ver, s) ==
@@ -39,9 +39,9 @@ PropV(c, seed, e, ver, s) ==
         n == Cardinality(c.vals)
         r == R(seed, 4, e, vv, s) % (n + 2)
     IN IF r < n THEN r + 1 ELSE 0
-PropOf(c, seed) == {x \in [e : Epochs(c), ver : Vers, v : c.vals, slot : 0..(MaxSlot + 3 * c.p)] :
-                    /\ x.slot \in F1(c, x.e)..(L1(c, x.e) + 1)        \* one slot beyond the epoch
-                    /\ PropV(c, seed, x.e, x.ver, x.slot) = x.v}
+PropOf(c, seed) == UNION {{r \in {[e |-> e, ver |-> ver, v |-> PropV(c, seed, e, ver, sl), slot |-> sl] :
+                                        sl \in F1(c, e)..(L1(c, e) + 1)} : r.v # 0} :       \* one slot beyond the epoch
+                             e \in Epochs(c), ver \in Vers}
 
 SyncOf(c, seed) == {x \in [p : Periods(c), ver : Vers, v : c.vals] :
                     LET vv == IF x.ver > 0 /\ R(seed, 5, x.p, x.ver, x.v) % 2 = 0 THEN 0 ELSE x.ver
